@@ -54,7 +54,7 @@ func ZZC06Merge() {
 	}
 	fact5 := annotations.PackageAnnotations{
 		TestonlyAnnotations:    []annotations.TestOnlyAnnotation{{Kind: annotations.TestOnlyOnType, ObjectName: t5}, {Kind: annotations.TestOnlyOnFunc, ObjectName: fn5}},
-		PackageOnlyAnnotations: []annotations.PackageOnlyAnnotation{{Kind: annotations.TestOnlyOnFunc, ObjectName: fn5, AllowedPackages: []string{"zzmod/y/dup", "w"}}},
+		PackageOnlyAnnotations: []annotations.PackageOnlyAnnotation{{Kind: annotations.TestOnlyOnFunc, ObjectName: fn5, AllowedPackages: []string{"zzmod/y/dup", "w", "u"}}},
 	}
 	t4 := nd.Enum("e4_type", "t4", "Exported4")
 	deepT := "DeepType"
@@ -96,4 +96,11 @@ func ZZC06Merge() {
 	nd.Assert(tf.Match(qp, qn, qn) == nd.And(e5, qp == "zzmod/y/dup", qn == fn5), "testonly func index")
 	nd.Assert(po.HasAnyFunctionAttachments(qp, qn) == nd.And(e5, qp == "zzmod/y/dup", qn == fn5), "packageonly index: item")
 	nd.Assert(po.HasPkgFunctionAttachment(qp, qn, "w") == nd.And(e5, qp == "zzmod/y/dup", qn == fn5), "packageonly index: allow-list entry")
+	nd.Assert(po.HasPkgFunctionAttachment(qp, qn, "u") == nd.And(e5, qp == "zzmod/y/dup", qn == fn5), "packageonly index: an entry that is the importer's own NAME stays what was written")
+	// the facts are the driver's objects, handed to every other importer analysed in the same process: they are input only
+	ap := fact5.PackageOnlyAnnotations[0].AllowedPackages
+	nd.Assert(len(ap) == 3 && ap[0] == "zzmod/y/dup" && ap[1] == "w" && ap[2] == "u", "building the indices does not modify an imported package's fact (allow-list)")
+	cn := fact2.ConstructorAnnotations[0].ConstructorNames
+	nd.Assert(len(cn) == 1 && cn[0] == c2 && fact2.ConstructorAnnotations[0].OnType == t2 && fact2.ImmutableAnnotations[0].OnType == t2 && fact2.MutableAnnotations[0].FieldName == f2, "building the indices does not modify an imported package's fact (constructor list, type and field names)")
+	nd.Assert(len(fact5.TestonlyAnnotations) == 2 && fact5.TestonlyAnnotations[0].ObjectName == t5 && fact5.TestonlyAnnotations[1].ObjectName == fn5, "building the indices does not modify an imported package's fact (@testonly items)")
 }
